@@ -1033,6 +1033,7 @@ func (x *Exec) instrs(st *State, fr *Frame, b *ssa.BasicBlock, i int, prev *ssa.
 			}
 			x.checkNil(st, fr, in, p)
 			x.frameCheck(st, fr, in, p)
+			x.guardCheck(st, fr, in, ptrClass(p))
 			x.storePtr(st, p, val, in.Val.Type())
 		case *ssa.UnOp:
 			x.doUnOp(st, fr, in)
@@ -1133,6 +1134,7 @@ func (x *Exec) instrs(st *State, fr *Frame, b *ssa.BasicBlock, i int, prev *ssa.
 				continue
 			}
 			x.safety(st, fr, in, "nilmap", "(not (= "+m.Ref+" 0))")
+			x.guardCheck(st, fr, in, "M|"+typeKey(m.Key)+"|"+typeKey(m.Elt))
 			if !x.classAllowed("M|" + typeKey(m.Key) + "|" + typeKey(m.Elt)) {
 				x.frameCheckRef(st, fr, in, m.Ref, "map")
 			}
@@ -1396,6 +1398,62 @@ func (x *Exec) frameCheck(st *State, fr *Frame, in ssa.Instruction, p Ptr) {
 	x.frameCheckRef(st, fr, in, p.Ref, "object")
 }
 
+// guardCheck: an access to a lock-protected heap class requires the lock to be held.
+func (x *Exec) guardCheck(st *State, fr *Frame, in ssa.Instruction, class string) {
+	if x.fc == nil || len(x.fc.Guarded) == 0 {
+		return
+	}
+	for _, g := range x.fc.Guarded {
+		hit := false
+		for _, c := range g.Classes {
+			if strings.Contains(class, c) {
+				hit = true
+			}
+		}
+		if !hit {
+			continue
+		}
+		var lockTerm string
+		func() {
+			defer func() {
+				if r := recover(); r != nil {
+					if _, ok := r.(evalError); !ok {
+						panic(r)
+					}
+				}
+			}()
+			if p, ok := x.entryEnv.eval(g.Lock.Expr).(Ptr); ok {
+				lockTerm = ptrTerm(p)
+			}
+		}()
+		name := x.curFnName + "/guarded-by(" + g.Lock.Text + ")"
+		props := g.Lock.Props
+		if len(props) == 0 {
+			props = x.fc.Props
+		}
+		o := x.oblig(name, "guarded-by", props, in.Pos(), "every access to "+strings.Join(g.Classes, ", ")+" happens with "+g.Lock.Text+" held")
+		if lockTerm == "" {
+			x.unbound(o, fmt.Errorf("lock expression is not a pointer"))
+			continue
+		}
+		x.check(st, o, "(select "+x.heldArr(st)+" "+lockTerm+")")
+	}
+}
+
+func ptrClass(p Ptr) string {
+	if p.Cell != nil {
+		return ""
+	}
+	if p.Arr != "" {
+		return "E|" + typeKey(p.Elem)
+	}
+	names, _ := pathNames(p.Elem, p.Path)
+	if _, isStruct := p.Elem.Underlying().(*types.Struct); isStruct || len(p.Path) > 0 {
+		return "F|" + typeKey(p.Elem) + names
+	}
+	return "P|" + typeKey(p.Elem)
+}
+
 // classAllowed: does an `assigns class:<substr>` pattern cover this heap class?
 func (x *Exec) classAllowed(class string) bool {
 	if x.fc == nil {
@@ -1501,6 +1559,7 @@ func (x *Exec) doUnOp(st *State, fr *Frame, in *ssa.UnOp) {
 			return
 		}
 		x.checkNil(st, fr, in, p)
+		x.guardCheck(st, fr, in, ptrClass(p))
 		lv := x.loadPtr(st, p, in.Type(), true)
 		if p.Cell == nil {
 			// representation invariants of loaded heap values
@@ -1751,6 +1810,7 @@ func (x *Exec) doLookup(st *State, fr *Frame, in *ssa.Lookup) {
 		fr.regs[in] = v
 	case MapV:
 		k := x.get(fr, in.Index)
+		x.guardCheck(st, fr, in, "M|"+typeKey(s.Key)+"|"+typeKey(s.Elt))
 		v := x.mapLoad(st, s, k)
 		x.assume(x.typeInv(v, s.Elt))
 		if in.CommaOk {
